@@ -192,9 +192,55 @@ def parse_upto(out, err):
     return ("error", err.strip()[-200:])
 
 
-def examine(ctx, exe, mdl, srcs, label):
+def have_hook(exe):
+    r = oracle.batch(exe, [{"op": "eval_up_to", "src": "{\n    1\n}\n", "offset": 6}])[0]
+    return "result" in r
+
+
+def upto_and_dbg(exe, keep, hook):
+    """For every case: (kind, value-or-message) of eval-up-to and the stderr of the dbg-instrumented run."""
+    if hook:
+        r1 = oracle.batch(exe, [{"op": "eval_up_to", "src": s, "offset": off, "tick_limit": 100000}
+                                for (s, items, a, b, k, off) in keep], timeout=900)
+        r2 = oracle.batch(exe, [{"op": "run", "src": s[:a] + "dbg(" + s[a:b] + ")" + s[b:], "tick_limit": 100000}
+                                for (s, items, a, b, k, off) in keep], timeout=900)
+        upto, dbg = [], []
+        for x in r1:
+            res = x.get("result")
+            if "panic" in x:
+                upto.append(("panic", str(x["panic"])[:300]))
+            elif res is None:
+                upto.append(("error", "first run failed: " + str(x)[:200]))
+            elif res.get("kind") == "value":
+                upto.append(("value", res["value"]))
+            else:
+                upto.append(("error", "%s %s" % (res.get("kind"), res.get("message", ""))))
+        for x in r2:
+            dbg.append(x.get("stderr", "") if "outcomes" in x else "error: " + str(x)[:200])
+        return upto, dbg
+    jobs_upto = [(["reftest-eval-up-to"], with_caret(s, off)) for (s, items, a, b, k, off) in keep]
+    jobs_dbg = [(["run"], s[:a] + "dbg(" + s[a:b] + ")" + s[b:]) for (s, items, a, b, k, off) in keep]
+    r_upto = cli_many(exe, jobs_upto)
+    r_dbg = cli_many(exe, jobs_dbg)
+    return [parse_upto(r[1], r[2]) for r in r_upto], [r[2] for r in r_dbg]
+
+
+def confirm_cli(exe, rep):
+    """Re-run a failing case through the plain CLI (the oracle of record)."""
+    cs = with_caret(rep["input"], rep["offset"])
+    if cs is None:
+        return None
+    a, b = rep["span"]
+    s = rep["input"]
+    r = cli_many(exe, [(["reftest-eval-up-to"], cs), (["run"], s[:a] + "dbg(" + s[a:b] + ")" + s[b:])])
+    kind, val = parse_upto(r[0][1], r[0][2])
+    m = DBG_RE.search(r[1][2])
+    return {"eval_up_to": [kind, val], "dbg": m.group(1) if m else None}
+
+
+def examine(ctx, exe, mdl, srcs, label, hook):
     sx = oracle.batch(exe, [{"op": "sexp", "src": s, "positions": True} for s in srcs], timeout=600)
-    cases = []      # (src, item_lines, start, end, kind, offset)
+    keep = []      # (src, item_lines, start, end, kind, offset)
     for s, r in zip(srcs, sx):
         items = r.get("items")
         if not items or r.get("errors"):
@@ -208,47 +254,46 @@ def examine(ctx, exe, mdl, srcs, label):
             if off is None:
                 ctx.stat(label + " no-own-offset:" + k)
                 continue
-            cases.append((s, items, a, b, k, off))
-    jobs_upto, jobs_dbg, keep = [], [], []
-    for c in cases:
-        s, items, a, b, k, off = c
-        cs = with_caret(s, off)
-        if cs is None:
-            ctx.stat(label + " no-caret-column")
-            continue
-        keep.append(c)
-        jobs_upto.append((["reftest-eval-up-to"], cs))
-        jobs_dbg.append((["run"], s[:a] + "dbg(" + s[a:b] + ")" + s[b:]))
-    r_upto = cli_many(exe, jobs_upto)
-    r_dbg = cli_many(exe, jobs_dbg)
+            if not hook and with_caret(s, off) is None:
+                ctx.stat(label + " no-caret-column")
+                continue
+            keep.append((s, items, a, b, k, off))
+    upto, dbg = upto_and_dbg(exe, keep, hook)
     lines = ["evalupto\t400000\t1\t%d:%d\t%s" % (a, b, common.hexs("\n".join(items))) for (s, items, a, b, k, off) in keep]
     rc, model, err = common.run_lines(mdl, [], lines, timeout=900, shards=common.NCPU)
     bad_corr = []
+    confirmed = {}
     for i, (s, items, a, b, k, off) in enumerate(keep):
-        kind, val = parse_upto(r_upto[i][1], r_upto[i][2])
+        kind, val = upto[i]
         ctx.case({"src": s[:120], "span": [a, b], "kind": k}, k not in ("int", "str"))
         ctx.stat("%s target:%s" % (label, k))
         rep = {"input": s, "offset": off, "span": [a, b], "target_kind": k,
-               "cli_command": "garden reftest-eval-up-to <file with `// ^` under offset>"}
+               "cli_command": "garden reftest-eval-up-to <file: the input with a `// ^` line under the offset>; "
+                              "garden run <file: the input with the span wrapped in dbg(...)>"}
+
+        def report(key, what, extra):
+            if key not in confirmed:      # one CLI confirmation per failing class
+                confirmed[key] = confirm_cli(exe, rep) if hook else "cli"
+            ctx.violation(key, what, dict(rep, cli_confirmation=confirmed[key], **extra))
         if kind == "panic":
-            ctx.violation("C27:panic:" + k, "eval-up-to panicked: " + val, dict(rep, observed=val))
+            report("C27:panic:" + k, "eval-up-to panicked: " + val, {"observed": val})
             continue
         # (a) dbg-instrumented run
         if k in WRAPPABLE:
-            m = DBG_RE.search(r_dbg[i][2])
-            if m and "rror" in r_dbg[i][2].split("//->")[0]:
+            m = DBG_RE.search(dbg[i])
+            if m and "rror" in dbg[i].split("//->")[0]:
                 m = None        # the instrumented program did not parse/check as intended
             if m:
                 ctx.stat(label + " dbg-compared")
                 want = m.group(1)
                 if kind == "value" and val != want:
-                    ctx.violation("C27:wrong-value:" + k,
-                                  "eval-up-to reports %s but the expression first evaluates to %s" % (val, want),
-                                  dict(rep, expected=want, observed=val))
+                    report("C27:wrong-value:" + k,
+                           "eval-up-to reports %s but the expression first evaluates to %s" % (val, want),
+                           {"expected": want, "observed": val})
                 elif kind == "error":
-                    ctx.violation("C27:error-but-reached:" + k,
-                                  "eval-up-to reports an error (%s) although the run reaches the expression with value %s" % (val, want),
-                                  dict(rep, expected=want, observed=val))
+                    report("C27:error-but-reached:" + k,
+                           "eval-up-to reports an error (%s) although the run reaches the expression with value %s" % (val, want),
+                           {"expected": want, "observed": val})
             else:
                 ctx.stat(label + " dbg-not-reached")
         else:
@@ -283,7 +328,8 @@ def run(ctx):
         "eval_up_to (top-level expression/block items only), tied to the code by differential execution against "
         "`garden reftest-eval-up-to`",
         "ocaml/ops_machinestop.ml (same S-expression reader as ops_machine.ml)",
-        "the dbg() built-in as the oracle for 'the value the expression takes' (first dbg line on stderr)",
+        "the dbg() built-in as the oracle for the value the expression takes (first dbg line on stderr)",
+        "cfg-gated hook ops eval_up_to (= what reftest-eval-up-to does, result as JSON) and run; every failing class is re-run through the plain CLI",
     ]
     ctx.coq("Properties/C27.v")
     exe = ctx.impl()
@@ -293,10 +339,12 @@ def run(ctx):
     if not mdl:
         return
     rng = ctx.rng
-    n = 150 if ctx.thorough else 24
+    hook = have_hook(exe)
+    ctx.stat("hook eval_up_to available" if hook else "hook eval_up_to missing: CLI only (fewer programs)")
+    n = (400 if ctx.thorough else 60) if hook else (40 if ctx.thorough else 4)
     progs = [gen_program(rng, 6) for _ in range(n)]
-    examine(ctx, exe, mdl, HAND, "hand")
-    examine(ctx, exe, mdl, progs, "random")
+    examine(ctx, exe, mdl, HAND, "hand", hook)
+    examine(ctx, exe, mdl, progs, "random", hook)
 
 
 def replay(ctx, rp):
